@@ -95,7 +95,18 @@ func (b *vhBackend) step(kind string, gs *pokerface.GameState, opts *pokerface.G
 		return nil, vhErrBackend
 	}
 	_ = k
-	return vhArbitraryGS(b.tag, b.m), nil
+	mm := b.m
+	if kind == "create" && mm < 2 {
+		mm = 2 // a created hand has at least two entries
+	}
+	gs2 := vhArbitraryGS(b.tag, mm)
+	if kind == "create" {
+		// the hand engine always designates a current player once a hand is created (the
+		// table's state handler dereferences that player); natively the state updater
+		// goroutine really processes this state
+		verifrt.Assume(gs2.Status.CurrentPlayer >= 0)
+	}
+	return gs2, nil
 }
 
 func (b *vhBackend) CreateGame(opts *pokerface.GameOptions) (*pokerface.GameState, error) {
@@ -319,4 +330,13 @@ func vhNewWorld(n, M, hand int, withGame bool) *vhWorld {
 		st.GameState = gs
 	}
 	return w
+}
+
+func vhHasString(xs []string, s string) bool {
+	for _, x := range xs {
+		if x == s {
+			return true
+		}
+	}
+	return false
 }
